@@ -18,7 +18,8 @@ from concurrent.futures import ThreadPoolExecutor
 
 VERIF = os.path.dirname(os.path.dirname(os.path.abspath(__file__)))
 COQ = os.path.join(VERIF, "coq")
-BUILD = os.path.join(VERIF, "build")
+BUILD = os.environ.get("VERIF_DEV_BUILD") or os.path.join(VERIF, "build")   # override: development only (parallel mutation runs)
+OUT = os.environ.get("VERIF_DEV_BUILD") or VERIF                             # where evidence/ and replays/ go
 REPO = os.environ.get("VERIF_REPO_OVERRIDE") or "/repo"   # override: development only (trying seeded changes in a scratch worktree)
 NCPU = min(16, os.cpu_count() or 4)
 
@@ -485,23 +486,23 @@ def load_findings():
 
 
 def write_replay(prop, kind, payload):
-    os.makedirs(os.path.join(VERIF, "replays"), exist_ok=True)
+    os.makedirs(os.path.join(OUT, "replays"), exist_ok=True)
     blob = json.dumps(to_json(payload), sort_keys=True)
     h = hashlib.sha1(blob.encode()).hexdigest()[:10]
-    path = os.path.join(VERIF, "replays", f"{prop}_{kind}_{h}.json")
+    path = os.path.join(OUT, "replays", f"{prop}_{kind}_{h}.json")
     with open(path, "w") as f:
         json.dump({"property": prop, "kind": kind, "payload": to_json(payload)}, f, indent=1, sort_keys=True)
     return path
 
 
 def write_evidence(prop, tier, seed, coverage, wall_s, violations, assumptions):
-    os.makedirs(os.path.join(VERIF, "evidence"), exist_ok=True)
+    os.makedirs(os.path.join(OUT, "evidence"), exist_ok=True)
     ev = {
         "property_id": prop, "tier": tier, "seed": seed, "level": "proof",
         "coverage": coverage, "assumptions": assumptions, "wall_s": round(wall_s, 2),
         "violations": violations,
     }
-    with open(os.path.join(VERIF, "evidence", f"{prop}.json"), "w") as f:
+    with open(os.path.join(OUT, "evidence", f"{prop}.json"), "w") as f:
         json.dump(ev, f, indent=1, sort_keys=True)
 
 
